@@ -6,7 +6,7 @@
 (*     x_i binary  ('B') with optional user bounds (x <= 0 fixes it),      *)
 (*     rows  a.x {<=,>=,=} r,   min / max  c.x                             *)
 (* and its exact optimum GridOpt over the finite grid of integer points.   *)
-(* The state machine builds a program call by call (m.dvar, bounds,        *)
+(* The state machine builds a program call by call (m.dvar + bounds,       *)
 (* m.min/m.max, m.st); every state after the objective is a complete       *)
 (* program that is exported together with its optimum.                     *)
 (*                                                                         *)
@@ -15,21 +15,25 @@
 (* implementation side is the real code (lp.py do_math integrality vector  *)
 (* 592-595, def_sol, the solver interfaces), bound by the replay.          *)
 (* The oracle itself is checked by TLC: OptWitness, SenseSymmetry,         *)
-(* RowsOnlyTighten.                                                        *)
+(* BinaryDomain, RowsOnlyTighten.                                          *)
+(*                                                                         *)
+(* The full family (3 variables: ~7*10^4 declarations x 250 objectives x   *)
+(* 3375^3 rows) cannot be enumerated.  Fan = 0 enumerates every argument   *)
+(* of an action (small constants); Fan > 0 lets each state take only Fan   *)
+(* arguments, chosen by a hash of the state and the seeded weights HashW:  *)
+(* TLC then enumerates a pseudo-random subtree of the family completely.   *)
 (***************************************************************************)
 EXTENDS Naturals, Integers, Sequences, FiniteSets, TLC, FiniteSetsExt, Json
 
 CONSTANTS MaxVars,    \* at most this many variables (<= 3)
           MaxRows,    \* at most this many rows (<= 3)
-          BoundSet,   \* user bounds are drawn from this set (subset of 0..3)
-          ObjSet,     \* objective coefficients
-          CoefSet,    \* row coefficients
-          RhsSet,     \* right-hand sides
-          ExportMod,  \* export the states whose checksum is 0 modulo ExportMod (1 = all)
-          HashW,      \* Seq of >= 32 pseudo-random weights (seeded by the harness)
-          KeepMod     \* [v2, v3, obj, row]: CONSTRAINT Keep thins the tree of programs pseudo-randomly:
-                      \* a state reached by declaring the 2nd / 3rd variable, by the objective, by a row
-                      \* is explored further iff its hash is 0 modulo the entry (1 = keep all)
+          BoundHi,    \* user bounds are drawn from 0..BoundHi
+          ObjLo, ObjHi,     \* objective coefficients ObjLo..ObjHi
+          CoefLo, CoefHi,   \* row coefficients
+          RhsLo, RhsHi,     \* right-hand sides
+          Fan,        \* [int, bin, obj, row]: arguments taken per state and action (0 = all)
+          HashW,      \* Seq of 48 pseudo-random weights in 1..996 (seeded by the harness)
+          ThinInfeasible  \* keep one in ThinInfeasible of the programs without feasible point
 
 None == 99            \* "the user gave no bound" (binaries only)
 
@@ -45,6 +49,23 @@ NV == Len(vt)
 
 Init == vt = <<>> /\ lb = <<>> /\ ub = <<>> /\ phase = "vars" /\ sense = "min" /\ c = <<>> /\ rows = <<>>
 
+-----------------------------------------------------------------------------
+(* hash of the state; ArgChoices(n, fan, salt): which of the n possible arguments this state takes *)
+SCode(s) == CASE s = "le" -> 1 [] s = "ge" -> 2 [] s = "eq" -> 3
+RECURSIVE FlatRows(_)
+FlatRows(rs) == IF rs = <<>> THEN <<>>
+                ELSE [i \in 1..NV |-> Head(rs).a[i] + 3] \o <<SCode(Head(rs).s), Head(rs).r + 7>> \o FlatRows(Tail(rs))
+Flat == [i \in 1..NV |-> IF vt[i] = "I" THEN 1 ELSE 2] \o lb \o ub
+        \o (IF phase = "rows" THEN <<IF sense = "min" THEN 1 ELSE 2>> \o [i \in 1..NV |-> c[i] + 3] ELSE <<>>)
+        \o FlatRows(rows)
+RECURSIVE HashTo(_, _)
+HashTo(f, n) == IF n = 0 THEN 17 ELSE (f[n] * HashW[n] * (n + 1) + 31 * HashTo(f, n - 1)) % 1000003
+Hash == HashTo(Flat, Len(Flat))
+Pick(j, n, salt) == ((Hash + salt) * HashW[40 + j] + HashW[j] * (j + salt)) % n
+ArgChoices(n, fan, salt) == IF fan = 0 THEN 0..(n - 1) ELSE {Pick(j, n, salt) : j \in 1..fan}
+
+-----------------------------------------------------------------------------
+(* the API calls *)
 \* x = m.dvar(vtype='I'); m.st(x >= l, x <= u)       (l > u is a legal, infeasible, declaration)
 DeclInt(l, u) ==
     /\ phase = "vars" /\ NV < MaxVars
@@ -67,10 +88,23 @@ AddRow(a, s, r) ==
     /\ rows' = Append(rows, [a |-> a, s |-> s, r |-> r])
     /\ UNCHANGED <<vt, lb, ub, phase, sense, c>>
 
-DoDeclInt == \E l \in BoundSet, u \in BoundSet : DeclInt(l, u)
-DoDeclBin == \E l \in BoundSet \cup {None}, u \in BoundSet \cup {None} : DeclBin(l, u)
-DoSetObj  == \E sn \in {"min", "max"} : \E cc \in [1..NV -> ObjSet] : SetObj(sn, cc)
-DoAddRow  == \E a \in [1..NV -> CoefSet] : \E s \in {"le", "ge", "eq"} : \E r \in RhsSet : AddRow(a, s, r)
+(* decoding an argument number into the argument *)
+RECURSIVE PowN(_, _)
+PowN(b, n) == IF n = 0 THEN 1 ELSE b * PowN(b, n - 1)
+Digits(k, base, lo) == [i \in 1..NV |-> lo + ((k \div PowN(base, i - 1)) % base)]
+NB == BoundHi + 1
+BinBound(k) == IF k = NB THEN None ELSE k            \* 0..BoundHi, or absent
+NObj == ObjHi - ObjLo + 1
+NCoef == CoefHi - CoefLo + 1
+NRhs == RhsHi - RhsLo + 1
+SenseOf(k) == CASE k = 0 -> "le" [] k = 1 -> "ge" [] k = 2 -> "eq"
+
+DoDeclInt == \E k \in ArgChoices(NB * NB, Fan[1], 1) : DeclInt(k % NB, k \div NB)
+DoDeclBin == \E k \in ArgChoices((NB + 1) * (NB + 1), Fan[2], 2) : DeclBin(BinBound(k % (NB + 1)), BinBound(k \div (NB + 1)))
+DoSetObj  == \E k \in ArgChoices(2 * PowN(NObj, NV), Fan[3], 3) :
+                 SetObj(IF k % 2 = 0 THEN "min" ELSE "max", Digits(k \div 2, NObj, ObjLo))
+DoAddRow  == \E k \in ArgChoices(3 * NRhs * PowN(NCoef, NV), Fan[4], 4) :
+                 AddRow(Digits(k \div (3 * NRhs), NCoef, CoefLo), SenseOf(k % 3), RhsLo + ((k \div 3) % NRhs))
 
 Next == DoDeclInt \/ DoDeclBin \/ DoSetObj \/ DoAddRow
 Spec == Init /\ [][Next]_vars
@@ -81,7 +115,7 @@ MaxI(x, y) == IF x >= y THEN x ELSE y
 MinI(x, y) == IF x <= y THEN x ELSE y
 Lo(i) == IF vt[i] = "B" THEN (IF lb[i] = None THEN 0 ELSE MaxI(0, lb[i])) ELSE lb[i]
 Hi(i) == IF vt[i] = "B" THEN (IF ub[i] = None THEN 1 ELSE MinI(1, ub[i])) ELSE ub[i]
-Top == Max(BoundSet \cup {1})
+Top == MaxI(BoundHi, 1)
 Points == {p \in [1..NV -> 0..Top] : \A i \in 1..NV : Lo(i) <= p[i] /\ p[i] <= Hi(i)}
 
 RECURSIVE DotTo(_, _, _)
@@ -101,38 +135,20 @@ GridOptOf(rs, sn, cc) ==
              arg |-> CHOOSE p \in F : Dot(cc, p) = o]
 GridOpt == GridOptOf(rows, sense, c)
 
------------------------------------------------------------------------------
-(* pseudo-random thinning of the tree of programs (the family is far too large to enumerate:
-   ~7*10^4 declarations x 250 objectives x 3375^3 rows); used as CONSTRAINT, so TLC still
-   generates every successor and explores a seeded sample of them *)
-SCode(s) == CASE s = "le" -> 1 [] s = "ge" -> 2 [] s = "eq" -> 3
-RECURSIVE FlatRows(_)
-FlatRows(rs) == IF rs = <<>> THEN <<>>
-                ELSE [i \in 1..NV |-> Head(rs).a[i] + 3] \o <<SCode(Head(rs).s), Head(rs).r + 7>> \o FlatRows(Tail(rs))
-Flat == [i \in 1..NV |-> IF vt[i] = "I" THEN 1 ELSE 2] \o lb \o ub
-        \o (IF phase = "rows" THEN <<IF sense = "min" THEN 1 ELSE 2>> \o [i \in 1..NV |-> c[i] + 3] ELSE <<>>)
-        \o FlatRows(rows)
-RECURSIVE HashTo(_, _)
-HashTo(f, n) == IF n = 0 THEN 0 ELSE (f[n] * HashW[n] * (n + 1) + HashTo(f, n - 1)) % 1000003
-Hash == HashTo(Flat, Len(Flat))
-Sampled == LET m == IF phase = "vars" THEN (IF NV <= 1 THEN 1 ELSE IF NV = 2 THEN KeepMod[1] ELSE KeepMod[2])
-                 ELSE IF rows = <<>> THEN KeepMod[3] ELSE KeepMod[4]
-        IN /\ Hash % m = 0
-           \* programs without any feasible point are the majority: keep one in eight of them
-           /\ (phase = "rows" /\ GridOpt.status = "infeasible") => Hash % (8 * m) = 0
-
-Keep == Sampled       \* named in the cfg as CONSTRAINT (TLC does not let invariants refer to that name)
+\* CONSTRAINT: programs without a feasible point are the majority; explore one in ThinInfeasible
+Keep == \/ ThinInfeasible <= 1
+        \/ Hash % ThinInfeasible = 0
+        \/ IF phase = "vars" THEN Points # {} ELSE Feas(rows) # {}
 
 -----------------------------------------------------------------------------
-(* the oracle is checked, too (TLC evaluates invariants also on the states CONSTRAINT Keep discards:
-   hence the guards) *)
+(* the oracle is checked, too *)
 TypeOK == /\ phase \in {"vars", "rows"} /\ sense \in {"min", "max"}
           /\ Len(lb) = NV /\ Len(ub) = NV /\ NV <= MaxVars /\ Len(rows) <= MaxRows
           /\ phase = "rows" => Len(c) = NV
 
 \* the reported optimum is attained at a feasible grid point and no feasible point is better
 OptWitness ==
-    (phase = "rows" /\ Sampled) =>
+    phase = "rows" =>
         LET g == GridOpt IN
         IF g.status = "infeasible" THEN \A p \in Points : \E k \in 1..Len(rows) : ~Sat(rows[k], p)
         ELSE /\ g.arg \in Points /\ \A k \in 1..Len(rows) : Sat(rows[k], g.arg) /\ Dot(c, g.arg) = g.opt
@@ -140,31 +156,30 @@ OptWitness ==
 
 \* max c.x = - min (-c).x
 SenseSymmetry ==
-    (phase = "rows" /\ Sampled) =>
+    phase = "rows" =>
         LET g == GridOpt
             h == GridOptOf(rows, IF sense = "min" THEN "max" ELSE "min", [i \in 1..NV |-> 0 - c[i]])
         IN g.status = h.status /\ g.opt = 0 - h.opt
 
 \* a binary takes values in {0,1} whatever the user bounds
-BinaryDomain == Sampled => \A p \in Points : \A i \in 1..NV : vt[i] = "B" => p[i] \in {0, 1}
+BinaryDomain == \A p \in Points : \A i \in 1..NV : vt[i] = "B" => p[i] \in {0, 1}
 
 \* adding a row never improves the optimum and never makes an infeasible program feasible
-\* (the step from the program without its last row, written as a state predicate)
 RowsOnlyTighten ==
-    (phase = "rows" /\ Sampled /\ rows # <<>>) =>
-        LET g == GridOptOf(SubSeq(rows, 1, Len(rows) - 1), sense, c)
-            h == GridOpt
-        IN /\ g.status = "infeasible" => h.status = "infeasible"
-           /\ (g.status = "optimal" /\ h.status = "optimal") =>
-                  IF sense = "min" THEN h.opt >= g.opt ELSE h.opt <= g.opt
+    [][(phase = "rows" /\ phase' = "rows") =>
+          LET g == GridOpt
+              h == GridOptOf(rows', sense', c')
+          IN /\ g.status = "infeasible" => h.status = "infeasible"
+             /\ (g.status = "optimal" /\ h.status = "optimal") =>
+                    IF sense = "min" THEN h.opt >= g.opt ELSE h.opt <= g.opt]_vars
 
 -----------------------------------------------------------------------------
-(* export *)
-RECURSIVE RowSum(_)
-RowSum(rs) == IF rs = <<>> THEN 0 ELSE DotTo(Head(rs).a, [i \in 1..NV |-> i + 2], NV) + 5 * Head(rs).r + RowSum(Tail(rs))
-CheckSum == DotTo(c, [i \in 1..NV |-> i], NV) + DotTo(lb, [i \in 1..NV |-> 3 * i], NV) + DotTo(ub, [i \in 1..NV |-> 7], NV)
-            + RowSum(rows) + Len(rows)
+(* export (TLC evaluates invariants also on the states CONSTRAINT Keep discards: hence the guard;
+   the cfg names Keep, so the invariant has to spell the predicate out under another name) *)
+Explored == \/ ThinInfeasible <= 1
+            \/ Hash % ThinInfeasible = 0
+            \/ Feas(rows) # {}
 ExportRec == [vt |-> vt, lb |-> lb, ub |-> ub, sense |-> sense, c |-> c, rows |-> rows, grid |-> GridOpt,
               binbound |-> \E i \in 1..NV : vt[i] = "B" /\ (lb[i] # None \/ ub[i] # None)]
-Export == (phase = "rows" /\ Sampled /\ CheckSum % ExportMod = 0) => PrintT(ToJson(ExportRec))
+Export == (phase = "rows" /\ Explored) => PrintT(ToJson(ExportRec))
 =============================================================================
